@@ -1,12 +1,12 @@
 #!/bin/bash
 # usage: seedtest.sh <PROP> <seed-dir> [tier]: apply a seeded change to a scratch worktree of /repo (never to /repo itself while other
-# checks may be running), run the check against it via VERIF_REPO, restore the worktree. Output in /tmp/seedtest_<name>.out
+# checks may be running; SEEDTAG=<x> selects a separate worktree and cache lane so that several can run side by side), run the check against it via VERIF_REPO, restore the worktree. Output in /tmp/seedtest_<name>.out
 P=$1; D=$2; T=${3:-quick}; N=$(basename $(dirname $D))_$(basename $D)
-W=/tmp/seedrun
+W=/tmp/seedrun$SEEDTAG
 if [ ! -d $W ]; then git -C /repo worktree add -q --detach $W HEAD || exit 9; fi
 cd $W || exit 9
 git checkout -q --detach $(git -C /repo rev-parse HEAD) 2>/dev/null; git checkout -q -- . ; git clean -fdq src tests
 git apply "$D/patch.diff" || { echo "seed $N: patch does not apply"; exit 9; }
-cd /verif && VERIF_REPO=$W ./check $P --tier $T --no-evidence > /tmp/seedtest_$N.out 2>&1; rc=$?
+cd /verif && VERIF_ALT_TAG=$SEEDTAG VERIF_REPO=$W ./check $P --tier $T --no-evidence > /tmp/seedtest_$N.out 2>&1; rc=$?
 cd $W && git checkout -q -- . && git clean -fdq src tests
 echo "seed $N property $P tier $T -> exit $rc"; grep -E "^VIOLATION|^SUMMARY|^BROKEN|^INCONCLUSIVE|^BUILD" /tmp/seedtest_$N.out | head -8
